@@ -103,7 +103,7 @@ func (c c15) Run(ctx *core.Ctx) error {
 		}
 		maxLen = 4
 	}
-	ctx.Ev.Rule = "every program of WriteNext(k,v,fault) calls up to the length bound with k in {\"\",a,ab,b,ba} (unsorted, repeated, empty), v in {nil,\"v\"}, fault in {none, data append fails, index append fails} x data compression x write buffer {5,4096}; each call's error result is compared with the ascending-key rule relative to the last accepted key, the table is closed and read back (reader + sequential data file) and must contain exactly the calls that returned nil; metadata must describe exactly that set and the file sizes on disk. distinct = (program, config); non-trivial = at least one rejected or failed call and one accepted call"
+	ctx.Ev.Rule = "every program of WriteNext(k,v,fault) calls up to the length bound with k in {\"\",a,ab,b,ba} (unsorted, repeated, empty), v in {nil,\"v\"}, fault in {none, data append fails, index append fails} x data compression x write buffer {5,4096}; each call's error result is compared with the ascending-key rule relative to the last accepted key, the table is closed and read back (reader + sequential data file) and must contain exactly the calls that returned nil; metadata must describe exactly that set and the file sizes on disk; key and value are handed over in reused caller buffers that are overwritten after every call. distinct = (program, config); non-trivial = at least one rejected or failed call and one accepted call"
 	ctx.Ev.Bounds["max_program_length"] = maxLen
 	ctx.Ev.Bounds["ops_alphabet"] = len(alpha)
 	rs := ctx.Pmap(cases)
@@ -199,6 +199,9 @@ func (c c15) runProgram(dir string, prog []c15Op, cfg [2]int, r *core.Result) {
 	haveFailed := false
 	interesting := false
 	failedBeforeFirstAccept := false
+	// key and value travel in caller-owned buffers that are reused for the next call (the way a merge loop or a
+	// decoder hands them over): once WriteNext has returned, their content belongs to the caller again
+	kbuf, vbuf := make([]byte, 0, 8), make([]byte, 0, 8)
 	for i, op := range prog {
 		k := c15Keys[op.K]
 		var v []byte
@@ -206,7 +209,18 @@ func (c c15) runProgram(dir string, prog []c15Op, cfg [2]int, r *core.Result) {
 			v = []byte("v")
 		}
 		fd.fail, fi.fail = op.Fault == 1, op.Fault == 2
-		err := w.WriteNext(k, v)
+		kArg := append(kbuf[:0], k...)
+		vArg := v
+		if v != nil {
+			vArg = append(vbuf[:0], v...)
+		}
+		err := w.WriteNext(kArg, vArg)
+		for j := range kbuf[:cap(kbuf)] {
+			kbuf[:cap(kbuf)][j] = 0xEE
+		}
+		for j := range vbuf[:cap(vbuf)] {
+			vbuf[:cap(vbuf)][j] = 0xEE
+		}
 		r.Trans++
 		r.Evals++
 		mustReject := haveAccepted && bytes.Compare(k, lastAccepted) <= 0
